@@ -6,3 +6,23 @@ import MdVerif.Props.C04Text
 #print axioms MdVerif.HtmlTok.C04_text_inline_verbatim
 #print axioms MdVerif.HtmlTok.C04_convertH_agrees
 #print axioms MdVerif.HtmlTok.C04_text_ltfree
+#print axioms MdVerif.HtmlTok.C04_text_end_to_end
+#print axioms MdVerif.HtmlTok.C04_text_end_to_end_para
+#print axioms MdVerif.HtmlTok.C04_text_end_to_end_pieces
+#print axioms MdVerif.HtmlTok.C04_text_unit_once
+#print axioms MdVerif.HtmlTok.C04_text_comment_once
+#print axioms MdVerif.HtmlTok.C04_text_pi_once
+#print axioms MdVerif.HtmlTok.C04_text_doctype_once
+#print axioms MdVerif.HtmlTok.C04_text_hr_once
+#print axioms MdVerif.HtmlTok.C04_text_selfclose_once
+#print axioms MdVerif.HtmlTok.C04_text_end_to_end_unit
+#print axioms MdVerif.HtmlTok.C04_text_end_to_end_comment
+#print axioms MdVerif.HtmlTok.C04_text_end_to_end_pi
+#print axioms MdVerif.HtmlTok.C04_text_end_to_end_anywhere
+#print axioms MdVerif.HtmlTok.C04_text_block_alone
+#print axioms MdVerif.HtmlTok.C04_text_end_to_end_unit_anywhere
+#print axioms MdVerif.HtmlTok.C04_text_many_once
+#print axioms MdVerif.HtmlTok.C04_neg_indented_under_text
+#print axioms MdVerif.HtmlTok.C04_neg_tail_entity_moves
+#print axioms MdVerif.HtmlTok.C04_neg_tail_entity_glued
+#print axioms MdVerif.HtmlTok.C04_text_domain_lex
